@@ -48,3 +48,8 @@ check("C18", "exploration",
       "Reference relation as in C19; a clean refusal of a cross-family equivalence (e.g. Int8 data into an inferable enum target) is not judged, since the statement makes compatibility necessary, not sufficient.",
       "runtime monitoring: generated schema/target pairs executed against a reference compatibility oracle with data-ownership checks",
       "DESIGN.md 3/C18")
+check("C06", "exploration",
+      "Decodes about a million structure-aware mutants of valid library encodings (blocks of every catalogue column, random compositions, reference-encoded LowCardinality with every key width, every protocol message) through typed, boxed and inferred targets in sandboxed worker processes with an address-space limit; monitors: recovered panics keyed by the library frame, worker aborts attributed through a write-ahead case log, a fused reader counting reads after EOF, allocation deltas per decode (flood regime with tag-guarded lower caps; cap regime with the hook inert and fields set just/far beyond the library's caps at known field positions), error rendering, and a row-by-row consistency walk on every successful decode. Held = none of the monitors fired on the inputs tried.",
+      "Allocation measured with runtime/metrics; by-design allocations within the library's own caps are not judged (they are avoided in the flood regime by proto.VerifSetCaps, which only adds earlier checks).",
+      "runtime monitoring: mutation-based hostile inputs under crash/allocation/consistency monitors in isolated workers",
+      "DESIGN.md 3/C06")
